@@ -13,7 +13,7 @@ import (
 
 // plainTxnCfg: committed transactions only (C01 is about committed values).
 func c01TxnCfg() TxnCfg {
-	return TxnCfg{Prop: "C01", MaxSteps: 12, Deletes: true, Inserts: true, Merges: true, OwnUpdates: true, Direct: true,
+	return TxnCfg{Prop: "C01", MaxSteps: 12, Deletes: true, Inserts: true, Merges: true, OwnUpdates: true, Direct: true, Rollback: true, Peeks: true,
 		NoStoreOnDel: KFActive("f11-store-and-delete-same-txn"), NoOpAfterLenMerge: KFActive("f15-difflen-merge-reorder")}
 }
 
